@@ -39,7 +39,7 @@ Fixpoint has_quote (g : gexpr) : bool :=
   match g with
   | GLitStr _ | GSprintV _ | GParseFloat _ => true
   | GSel x _ | GParen x | GNot x | GNeg x | GLen x | GAtoi x | GParseDur x | GParseTime x => has_quote x
-  | GBin _ a b | GStrFn _ a b | GMatch a b | GSlicesContains a b => has_quote a || has_quote b
+  | GBin _ a b | GStrFn _ a b | GMatch a b | GMatchSafe a b | GSlicesContains a b => has_quote a || has_quote b
   | GStrList l | GIfaceList l => any l
   | GAll _ r c | GExists _ r c | GExistsOne _ r c | GFilter _ r c | GMapC _ r c => has_quote r || has_quote c
   | GTern c a b => has_quote c || has_quote a || has_quote b
@@ -67,7 +67,7 @@ Fixpoint has_tern (g : gexpr) : bool :=
   match g with
   | GTern _ _ _ => true
   | GSel x _ | GParen x | GNot x | GNeg x | GLen x | GAtoi x | GParseDur x | GParseTime x | GSprintV x | GParseFloat x => has_tern x
-  | GBin _ a b | GStrFn _ a b | GMatch a b | GSlicesContains a b => has_tern a || has_tern b
+  | GBin _ a b | GStrFn _ a b | GMatch a b | GMatchSafe a b | GSlicesContains a b => has_tern a || has_tern b
   | GStrList l | GIfaceList l => any l
   | GAll _ r c | GExists _ r c | GExistsOne _ r c | GFilter _ r c | GMapC _ r c => has_tern r || has_tern c
   | _ => false
@@ -77,7 +77,7 @@ Fixpoint has_iface (g : gexpr) : bool :=
   match g with
   | GIfaceList _ | GFilter _ _ _ | GMapC _ _ _ => true
   | GSel x _ | GParen x | GNot x | GNeg x | GLen x | GAtoi x | GParseDur x | GParseTime x | GSprintV x | GParseFloat x => has_iface x
-  | GBin _ a b | GStrFn _ a b | GMatch a b | GSlicesContains a b => has_iface a || has_iface b
+  | GBin _ a b | GStrFn _ a b | GMatch a b | GMatchSafe a b | GSlicesContains a b => has_iface a || has_iface b
   | GStrList l => any l
   | GAll _ r c | GExists _ r c | GExistsOne _ r c => has_iface r || has_iface c
   | GTern c a b => has_iface c || has_iface a || has_iface b
@@ -95,7 +95,7 @@ Fixpoint text_has (n : bytes) (g : gexpr) : bool :=
   | GSel e f => text_has n e || contains_sub n f
   | GLitStr s => contains_sub n s
   | GParen x | GNot x | GNeg x | GLen x | GAtoi x | GParseDur x | GParseTime x | GSprintV x | GParseFloat x => text_has n x
-  | GBin _ a b | GStrFn _ a b | GMatch a b | GSlicesContains a b => text_has n a || text_has n b
+  | GBin _ a b | GStrFn _ a b | GMatch a b | GMatchSafe a b | GSlicesContains a b => text_has n a || text_has n b
   | GStrList l | GIfaceList l => any l
   | GAll x r c | GExists x r c | GExistsOne x r c | GFilter x r c | GMapC x r c => contains_sub n x || text_has n r || text_has n c
   | GTern c a b => text_has n c || text_has n a || text_has n b
@@ -210,6 +210,11 @@ Section Tr.
   Definition pattern_ok (e : cexpr) : bool :=
     match e with EConst (KString p) => re_ok p | _ => true end.
 
+  (* matchesExpr: a constant pattern (checked at generation time) is compiled with MustCompile, any other
+     pattern with regexp.Compile inside a closure that returns false when the pattern is invalid *)
+  Definition match_node (pe : cexpr) (p s : gexpr) : gexpr :=
+    match pe with EConst _ => GMatch p s | _ => GMatchSafe p s end.
+
   Fixpoint tr (e : cexpr) : option gexpr :=
     match e with
     | EIdent x => Some (if bytes_eqb x s_value then GSel GT fname else if bytes_eqb x s_this then GT else GVar x)
@@ -235,7 +240,7 @@ Section Tr.
         | FContains => obind (tr a) (fun s => omap (fun p => GStrFn SContains s p) (tr b))
         | FStartsWith => obind (tr a) (fun s => omap (fun p => GStrFn SHasPrefix s p) (tr b))
         | FEndsWith => obind (tr a) (fun s => omap (fun p => GStrFn SHasSuffix s p) (tr b))
-        | FMatches => obind (tr a) (fun s => obind (tr b) (fun p => if pattern_ok b then Some (GMatch p s) else None))
+        | FMatches => obind (tr a) (fun s => obind (tr b) (fun p => if pattern_ok b then Some (match_node b p s) else None))
         | _ =>
             match bin_of fn with
             | Some op => obind (tr a) (fun l => omap (fun r => GBin op (operand_of fn a false l) (operand_of fn b true r)) (tr b))
@@ -254,7 +259,7 @@ Section Tr.
           | FStartsWith => omap (fun p => GStrFn SHasPrefix s p) (tr a)
           | FEndsWith => omap (fun p => GStrFn SHasSuffix s p) (tr a)
           | FContains => omap (fun p => GStrFn SContains s p) (tr a)
-          | FMatches => obind (tr a) (fun p => if pattern_ok a then Some (GMatch p s) else None)
+          | FMatches => obind (tr a) (fun p => if pattern_ok a then Some (match_node a p s) else None)
           | _ => None
           end)
     | EList es =>
